@@ -39,7 +39,9 @@ RULE = ('history = 3-30 generated operations on one collection with TTL indexes 
         'of the history')
 ASSUMPTIONS = [
     'the clock is mongomock.utcnow mocked to a naive datetime; aware clocks are out of scope',
-    'positional $ paths unmodelled (history cut there)',
+    'these histories draw no positional $ paths (the positional operator is modelled '
+    'and judged under C02); a step the model '
+    'answers unmodelled for cuts the history there',
 ]
 
 known_labels = {e['id'] for e in common.load_known(ID) if e.get('status') == 'known'}
